@@ -62,3 +62,16 @@ def validate(ctx, module, traces, cfg="SPECIFICATION Spec\nCONSTRAINT Progress\n
             res.propfail.append(t)
     ctx.traces += len(traces)
     return res
+
+
+def masked_truth(tv, traces, truth_of):
+    """Ground-truth clauses travel in the final event of a trace and are evaluated by TLC when that event is consumed.  A trace that
+    is rejected earlier (a fidelity mismatch) never gets there: its property clauses must not be masked by the rejection.
+    truth_of(trace) -> dict name -> bool.  Yields (tid, name) for every false clause of a rejected trace."""
+    reported = {t for t, _, _ in tv.propfail}
+    for tid in tv.rejected:
+        if tid in reported:
+            continue
+        for name, ok in truth_of(traces[tid]).items():
+            if not ok:
+                yield tid, name
